@@ -84,6 +84,15 @@ func ruleFlushRetention(r *Run, rule string, k *vecKind) {
 	if k.Name == "hnsw" {
 		ruleHNSWFlushNodes(r, rule, k, body, clear)
 	}
+	// Add relies on the flush body to purge a re-added id (C06.REVIVE): only then is a lazy early exit a defect
+	addRelies := false
+	for _, call := range callsIn(k.Add, func(cc *ssa.CallCommon) bool { return staticCallee(cc) == body }) {
+		_ = call
+		addRelies = true
+	}
+	if addRelies {
+		ruleFlushAlwaysClears(r, rule, k.Name, body, clear, delCanon)
+	}
 	if len(sinks) == 0 {
 		if k.Name != "hnsw" {
 			r.Bad(rule, k.Name+":retain", w.Pos(body.Pos())+" "+name, "flush body has no retention loop")
@@ -471,4 +480,73 @@ func poolResetAtGet(w *World, poolC string) (bool, int) {
 		})
 	}
 	return n > 0 && all, n
+}
+
+// ruleFlushAlwaysClears: the flush body reaches a success return without Clear() only when the soft-delete
+// bitmap is empty (Add relies on the flush body to purge a re-added id; a lazy early exit breaks that).
+func ruleFlushAlwaysClears(r *Run, rule, kind string, body *ssa.Function, clear *ssa.Call, delCanon string) {
+	w := r.W
+	c := NewCanon(w)
+	name := w.Name(body)
+	for i, ret := range returnsOf(body) {
+		if classifyErr(ret) == ErrNonNil {
+			continue
+		}
+		site := w.InstrPos(ret) + " " + name
+		key := fmt.Sprintf("%s:always-clears#%d", kind, i)
+		if domInstr(clear, ret) {
+			r.Ok(rule, key, site, "return follows Clear()")
+			continue
+		}
+		// must be guarded by "bitmap is empty"
+		guarded := false
+		for b := ret.Block(); b != nil; b = b.Idom() {
+			d := b.Idom()
+			if d == nil {
+				break
+			}
+			iff, ok := d.Instrs[len(d.Instrs)-1].(*ssa.If)
+			if !ok {
+				continue
+			}
+			cond, neg := stripNot(iff.Cond)
+			empty := false // does the true branch mean "empty"?
+			known := false
+			switch x := cond.(type) {
+			case *ssa.BinOp:
+				l, rr := c.S(x.X), c.S(x.Y)
+				isCard := func(s string) bool { return strings.Contains(s, "GetCardinality("+delCanon+")") }
+				if (isCard(l) && isZeroConst(x.Y)) || (isCard(rr) && isZeroConst(x.X)) {
+					switch x.Op {
+					case token.EQL:
+						empty, known = true, true
+					case token.NEQ, token.GTR:
+						empty, known = false, true
+					case token.LEQ:
+						empty, known = isCard(l), isCard(l)
+					}
+				}
+			case *ssa.Call:
+				if calleeName(x.Common()) == roaringBitmap+"IsEmpty" && c.S(x.Call.Args[0]) == delCanon {
+					empty, known = true, true
+				}
+			}
+			if !known {
+				continue
+			}
+			if neg {
+				empty = !empty
+			}
+			succ := d.Succs[1]
+			if empty {
+				succ = d.Succs[0]
+			}
+			if len(succ.Preds) == 1 && (succ == b || succ.Dominates(b)) {
+				guarded = true
+			}
+			break
+		}
+		r.Check(guarded, rule, key, site, "early return only when the soft-delete bitmap is empty",
+			"the flush body can return without purging although soft-deleted entries are pending (Add relies on it to purge a re-added id)")
+	}
 }
